@@ -29,6 +29,7 @@ type ReplayPlan struct {
 	PhiParam  map[string]string // header phi name -> source parameter it is initialised from
 	PhiResult map[string]int    // header phi name -> result index it flows to
 	NaNParams []string          // logical names of parameters that are NaN (NaN mode)
+	Tables    []string          // array parameters that are tables, not time series (step replays)
 }
 
 type ReplayOutcome struct {
@@ -49,10 +50,22 @@ func (fr *Frame) stepReplayValues(li *loopInfo, e *State) ([]namedTerm, *ReplayP
 		return nil, nil
 	}
 	plan := &ReplayPlan{Kind: "step", Fn: fr.fn, PhiParam: map[string]string{}, PhiResult: map[string]int{}}
+	if fr.fc != nil {
+		plan.Tables = fr.fc.Tables
+	}
 	var vals []namedTerm
 	vals = append(vals, c.paramVals...)
 	hs := li.headState
 	var idx T
+	// the loop index is the phi compared in the header's exit condition
+	var condPhi *ssa.Phi
+	if ifi, ok := li.header.Instrs[len(li.header.Instrs)-1].(*ssa.If); ok {
+		if bo, ok := ifi.Cond.(*ssa.BinOp); ok {
+			if p, ok := bo.X.(*ssa.Phi); ok && p.Block() == li.header {
+				condPhi = p
+			}
+		}
+	}
 	for _, instr := range li.header.Instrs {
 		phi, ok := instr.(*ssa.Phi)
 		if !ok {
@@ -72,7 +85,7 @@ func (fr *Frame) stepReplayValues(li *loopInfo, e *State) ([]namedTerm, *ReplayP
 				plan.PhiParam[name] = op.Name()
 			case *ssa.Const:
 				if op.Value != nil && op.Value.ExactString() == "0" && phi.Type().Underlying().(*types.Basic).Info()&types.IsInteger != 0 {
-					if plan.IndexName == "" {
+					if plan.IndexName == "" && (condPhi == nil || condPhi == phi) {
 						plan.IndexName = name
 						idx, _ = fr.vals[phi].(T)
 					}
@@ -99,6 +112,13 @@ func (fr *Frame) stepReplayValues(li *loopInfo, e *State) ([]namedTerm, *ReplayP
 			if isNDIface(p.Type()) {
 				v.Typ = p.Type()
 				vals = append(vals, namedTerm{"at/" + p.Name(), c.sel(c.ndCells(hs, v), idx)})
+				if fr.fc != nil && contains(fr.fc.Tables, p.Name()) {
+					vals = append(vals, namedTerm{"nd/" + p.Name() + "/len", c.ndLen(v)})
+					cells := c.ndCells(hs, v)
+					for k := 0; k < maxElems; k++ {
+						vals = append(vals, namedTerm{fmt.Sprintf("nd/%s/%d", p.Name(), k), c.sel(cells, intLit(int64(k)))})
+					}
+				}
 			}
 		case SliceV:
 			if v.Elem == "" {
@@ -267,7 +287,7 @@ func runReplay(r *OblResult, cs *Contracts) *ReplayOutcome {
 				return out
 			}
 			var cells []float64
-			if plan.Kind == "step" || plan.Kind == "inv" {
+			if (plan.Kind == "step" || plan.Kind == "inv") && !contains(plan.Tables, name) {
 				mv := model["at/"+name]
 				if mv == nil {
 					mv = new(big.Rat)
